@@ -8,20 +8,23 @@
 EXTENDS Flagged, Json, IOUtils
 
 Trace == ndJsonDeserialize(IOEnv.TRACE)
-VARIABLES l, conf, run, last
-tvars == <<l, conf, run, last, dur, opened, flag, cur, fid, hist, nw, ndrops, pc, res>>
+VARIABLES l, conf, run, last,
+          ref    \* flush id -> contents when Flush(id) returned in the run of this history without a crash
+tvars == <<l, conf, run, last, ref, dur, opened, flag, cur, fid, hist, nw, ndrops, pc, res>>
 T == Trace[l]
 Is(op) == l <= Len(Trace) /\ T.op = op /\ l' = l + 1
-Keep == run' = run
+Keep == run' = run /\ ref' = ref
 Call(g) == conf' = (conf /\ g) /\ last' = last /\ Keep
 Step(g, name) == conf' = (conf /\ g) /\ last' = name /\ Keep
 
-TInit == /\ TLCSet(1, 1) /\ l = 1 /\ conf = TRUE /\ run = [scen |-> 0, crash |-> 0] /\ last = "none" /\ FInit
+TInit == /\ TLCSet(1, 1) /\ l = 1 /\ conf = TRUE /\ run = [scen |-> 0, crash |-> 0] /\ last = "none" /\ ref = <<>> /\ FInit
 
 TReset == /\ Is("reset")
           /\ dur' = NoDBs /\ opened' = {} /\ flag' = [d \in DBs |-> FALSE] /\ cur' = IdleCall
           /\ fid' = 0 /\ hist' = <<>> /\ nw' = 0 /\ ndrops' = 0 /\ pc' = "run" /\ res' = [v |-> "-", id |-> 0]
           /\ conf' = TRUE /\ run' = [scen |-> T.scen, crash |-> T.crash] /\ last' = "none"
+          \* the runs of one history follow its run without a crash, whose completed flushes are the reference
+          /\ ref' = IF T.crash = 0 THEN <<>> ELSE ref
 
 TOpen == Is("open") /\ BeginOpenE(T.db) /\ Call(BeginOpenG(T.db))
 TPut == Is("put") /\ BeginWriteE(T.db, T.w) /\ Call(BeginWriteG(T.db, T.w))
@@ -41,14 +44,15 @@ TFlushed == /\ Is("flushed")
                THEN cur' = IdleCall /\ hist' = RecordFlush(hist, fid, dur)
                ELSE UNCHANGED <<cur, hist>>
             /\ UNCHANGED <<dur, opened, flag, fid, nw, ndrops, pc, res>>
-            /\ Call(cur.kind = "idle")
+            /\ conf' = (conf /\ cur.kind = "idle") /\ run' = run /\ last' = last
+            /\ ref' = IF run.crash = 0 THEN RecordFlush(ref, T.id, dur) ELSE ref
 
 Bound == \A d \in DBs : T.dbs[d].ex = dur[d].ex /\ T.dbs[d].mark = dur[d].mark /\ T.dbs[d].data = dur[d].data
 TRestart ==
   /\ Is("restart") /\ Bound
   /\ LET r == [v |-> T.verdict, id |-> T.id]
          allowed == r \in Verdicts(dur)
-         consistent == VerdictConsistent(dur, hist, r) IN
+         consistent == VerdictConsistent(dur, ref, r) IN
      /\ IF allowed /\ consistent THEN TRUE
         ELSE PrintT(<<"INCONSISTENT", ToJson([scen |-> run.scen, crash |-> run.crash, last |-> last, verdict |-> r,
                                              kind |-> IF allowed THEN "contents" ELSE "verdict",
